@@ -79,6 +79,9 @@ type Node struct {
 	Idx  int
 	ID   string
 	Addr string
+	// Suspected: the other nodes list this node with the flag "fail?" (PFAIL: not reachable from their point of
+	// view for a moment); it is alive and keeps its slots.
+	Suspected bool
 	// Stalled: the node reads requests but sends no answer until it is cleared (controlled executions only).
 	Stalled bool
 	// ListenAddr, when set, is the numeric address the node listens on while Addr is a host name.
@@ -473,6 +476,8 @@ func (c *Cluster) NodesText(self *Node) string {
 		}
 		if n == self {
 			flags = "myself," + flags
+		} else if n.Suspected {
+			flags += ",fail?" // the answering node's own, unconfirmed suspicion; the node is alive
 		}
 		port := n.Addr[strings.LastIndex(n.Addr, ":")+1:]
 		fmt.Fprintf(&b, "%s %s@1%s %s %s 0 1426238316232 %d connected", n.ID, n.Addr, port, flags, master, n.Idx+1)
